@@ -549,6 +549,10 @@ def r5(ctx, p, K):
                 ctx.fail("C01-R5", path, "unguarded " + hit,
                          "stream index 2 is accessed without a dominating `num_streams > 2` test: a two-stream voice (no LPF stream) panics here", cm.loc_of(t["span"]))
     ctx.anchor("C01-R5", "uses of constant stream index 2 in K", n2, 4)
+    # a voice without a low-pass stream takes the plain excitation branch: the ring buffer that
+    # selects the branch is empty for nlpf = 0 (the clause C07-R3 decides, stated for C01)
+    from .c07 import ring_buffer_size
+    ring_buffer_size(ctx, p, "C01-R5")
 
 
 def r6(ctx, p, cg, K):
